@@ -323,6 +323,20 @@ def three_letter_words(lang, rnd, n):
     return out
 
 
+def run_words(lang, rnd, n):
+    """words of five to seven letters in which one letter stands three or four times in a row ("zzz", brand names, sounds,
+    Roman numerals), the run at the start, in the middle or at the end, with at least three distinct letters in all"""
+    letters = script_letters(lang)
+    out = []
+    for k in range(n):
+        r = rnd.choice(letters)
+        run = r * rnd.choice([3, 3, 4])
+        rest = rnd.sample([ch for ch in letters if ch != r], rnd.randint(max(2, 5 - len(run)), 7 - len(run)))
+        cut = [0, len(rest) // 2, len(rest)][k % 3]
+        out.append("".join(rest[:cut]) + run + "".join(rest[cut:]))
+    return out
+
+
 def gen_edit_cases(lang, rnd, titles, toks, ncases, per_pos=2, extra=()):
     """C04"""
     letters = script_letters(lang)
@@ -470,6 +484,16 @@ def gen_exact_prefix_cases(lang, rnd, titles, toks, ncases):
         for n in range(1, len(w) + 1):
             c.search(sid, w[:n], expect=dict(prop="C05", kind="exactprefix", rid=rid))
         cases.append(c)
+        # ... and in a case of its own (a thread that has never seen the plain prefixes): the user pasted the word, went on
+        # past it (a blank, a comma, another word) and deletes; each prefix is asked right after its completed form
+        # ("mailbo " then "mailbo")
+        c2 = Case("C05", "exactprefix", lang=lang)
+        c2.ops = [dict(o) for o in c.ops if o.get("op") != "search"]
+        c2.sid = c.sid
+        for n in range(len(w), 0, -1):
+            c2.search(sid, w[:n] + cps(rnd.choice([" ", " ", ", ", " zq"])))
+            c2.search(sid, w[:n], expect=dict(prop="C05", kind="exactprefix", rid=rid))
+        cases.append(c2)
     return cases, words
 
 
@@ -1934,6 +1958,31 @@ def gen_huge_store_cases(prop, lang, rnd, titles, ncases):
             c.search(sid, shared[:1], want=["qtok", "unlimited", "singles_some"], single_of=some)
         cases.append(c)
     return cases
+
+
+def gen_long_lived_store_cases(prop, lang, rnd):
+    """a store that has been in use for a long time: between two judged searches of the same prefix the store answers
+    other queries 2^8 and 2^16 times, give or take one (the sizes at which narrow counters, stamps and generation numbers
+    come round again); the records the other queries reach share no letter with the judged one"""
+    letters = script_letters(lang)
+    half = len(letters) // 2
+    A, B = letters[:half], letters[half:]
+    if len(A) < 3 or len(B) < 3:
+        return []
+    w1, x1, w2, x2 = rand_word(rnd, A, 5, 7), rand_word(rnd, A, 4, 6), rand_word(rnd, B, 5, 7), rand_word(rnd, B, 4, 6)
+    c = Case(prop, "long-lived", lang=lang)
+    sid = c.new_store(lang, limit=10)
+    c.add(sid, 1, w1 + " " + x1, rnd.randint(0, 1000))
+    c.add(sid, 2, w2 + " " + x2, rnd.randint(0, 1000))
+    want = ["qtok", "fresh"] if prop == "C10" else ["qtok"]
+    ex1 = {"expect": dict(prop="C03", kind="prefix", rid=1, widx=1)} if prop == "C03" else {}
+    ex2 = {"expect": dict(prop="C03", kind="prefix", rid=2, widx=1)} if prop == "C03" else {}
+    c.search(sid, w1[:2], want=want, **ex1)
+    for gap in (254, 255, 256, 257, 65534, 65535, 65536, 65537):
+        c.search(sid, w2[:2], want=want, times=gap, **ex2)
+        c.search(sid, w1[:2], want=want, **ex1)
+        c.search(sid, w1, want=want, **ex1)
+    return [c]
 
 
 def gen_long_title_cases(lang, rnd):
